@@ -34,3 +34,35 @@ Definition of_res0 {T} (f : T -> sexp) (r : res T) : sexp :=
   | Err _ => L [A 1]
   | Panic => L [A 2]
   end.
+
+(* structural equality (used by the in-kernel cross-check of the extracted model) *)
+Fixpoint sexp_eqb (a b : sexp) : bool :=
+  match a, b with
+  | A n, A m => N.eqb n m
+  | B x, B y => bytes_eqb x y
+  | L x, L y =>
+    (fix go (x y : list sexp) : bool :=
+       match x, y with
+       | [], [] => true
+       | u :: x', v :: y' => sexp_eqb u v && go x' y'
+       | _, _ => false
+       end) x y
+  | _, _ => false
+  end.
+
+(* bytes from a hexadecimal string literal (for generated files) *)
+From Coq Require Import String Ascii.
+Definition hex_digit (c : ascii) : N :=
+  let n := N_of_ascii c in
+  if N.leb 48 n && N.leb n 57 then n - 48
+  else if N.leb 97 n && N.leb n 102 then n - 87
+  else 0.
+Fixpoint hexb (s : string) : bytes :=
+  match s with
+  | String a (String b r) =>
+    match Byte.of_N (16 * hex_digit a + hex_digit b) with
+    | Some x => x :: hexb r
+    | None => hexb r
+    end
+  | _ => []
+  end.
